@@ -44,6 +44,8 @@ def sort_key(name):
         return lambda v: -v
     if name == "m10":
         return lambda v: (v % 10, v)
+    if name == "k10":
+        return lambda v: v % 10         # a preorder with ties; list.sort is stable like this glibc's qsort
     return lambda v: v
 
 
@@ -92,6 +94,13 @@ def make_pool(rng, dl):
     if dl > 8:
         base += [body ^ 2 ** 64, body ^ 2 ** (8 * (dl - 1)), (body % 2 ** 64) + 2 ** 64, (body % 2 ** 64) + 2 ** 65]
     base += [v, v + 2 ** 31, v + 2 ** 32, v + 2 ** 63, 2 ** 64 - 1, 2 ** 64 - 2, 2 ** 63, 2 ** 32, 2 ** 31]
+    # records whose sort keys (v % 10) TIE while their bytes differ — in the first byte, in the last
+    # byte and in between (matters for odd element sizes too: 1, 3, 17)
+    t = rng.randrange(0, 6)
+    ties = [t, t + 10, t + 250]
+    if dl >= 2:
+        ties += [t + 10 * top, t + 10 * (M // 10 - 1), t + 10 * 256 ** (dl // 2)]
+    base += [x for x in ties if x < M]
     base += [rng.randrange(M) for _ in range(3)]
     base += [rng.randrange(1, 100) for _ in range(4)]
     return [x % (4 * M) if x >= 4 * M else x for x in base]
@@ -534,8 +543,15 @@ class ArraySizedGen:
             vals = [1, 2, 256 ** (dl - 1) * 3 + 1] if dl > 1 else [1, 2, 11]
             for n in range(0, 5 if quick else 6):
                 for seq in itertools.product(vals, repeat=n):
-                    for cm in ("asc", "desc", "m10"):
+                    for cm in ("asc", "desc", "m10", "k10"):
                         out.append([f"new esize={dl} cap=2 exp=2"] + [f"add {v}" for v in seq] + [f"sort cmp={cm}", "add 0", "sort", "destroy"])
+        # ties: records with equal keys v % 10 and different bytes, odd element sizes included
+        for dl in (1, 3, 17):
+            top = 256 ** (dl - 1)
+            tv = [3, 13, 253, 23] if dl == 1 else [3, 13, 3 + 10 * top, 253, 3 + 10 * 256 ** (dl // 2), 23, 7, 17 + 10 * top]
+            for n in range(2, len(tv) + 1):
+                out.append([f"new esize={dl} cap=1 exp=1.5"] + [f"add {v}" for v in tv[:n]] +
+                           ["sort cmp=k10", "sort cmp=k10", "reverse", "sort cmp=k10", "map fn=inc", "sort cmp=k10", "sort cmp=asc", "destroy"])
         return out
 
     def _small_sort_resort(self):
@@ -560,8 +576,8 @@ class ArraySizedGen:
             ["new o=1 esize=1 cap=2 exp=2", "add 1 o=1", "add 2 o=1", "zit_new o=0 o2=1", "zit_next", "zit_replace 200 7", "zit_next", "zit_add 128 9"],
             ["mk_copy to=1", "map fn=inc", "sort cmp=asc o=1"], ["sort cmp=desc", "map fn=inc"],
         ]
-        other = {"asc": "m10", "desc": "asc", "m10": "desc"}
-        for cm in ("asc", "desc", "m10"):
+        other = {"asc": "m10", "desc": "k10", "m10": "desc", "k10": "asc"}
+        for cm in ("asc", "desc", "m10", "k10"):
             for mu in muts:
                 out.append(["new esize=1 cap=2 exp=2"] + [f"add {v}" for v in vals] +
                            [f"sort cmp={cm}"] + mu + [f"sort cmp={cm}", "map fn=inc", f"sort cmp={cm}",
@@ -740,7 +756,7 @@ class ArraySizedGen:
                     h.ops.append(f"drop o={k}")
                     del h.sh[k]
             elif r < p_iter + p_zip + p_der + p_sort:
-                cm = rng.choice(["asc", "desc", "m10"])
+                cm = rng.choice(["asc", "desc", "m10", "k10", "k10"])
                 h.ops.append(f"sort cmp={cm}{h.suffix(o)}")
                 h.sh[o].xs.sort(key=sort_key(cm))
                 if rng.random() < 0.75:
@@ -765,6 +781,11 @@ class ArraySizedGen:
                         core_op(h, o, rng, mutw)
                     h.ops.append(f"sort cmp={cm}{h.suffix(o)}")
                     h.sh[o].xs.sort(key=sort_key(cm))
+                if cm == "k10" and rng.random() < 0.6:
+                    # the order among ties rests on this glibc's qsort: put the array into a total order soon
+                    cm3 = rng.choice(["asc", "desc", "m10"])
+                    h.ops.append(f"sort cmp={cm3}{h.suffix(o)}")
+                    h.sh[o].xs.sort(key=sort_key(cm3))
             else:
                 core_op(h, o, rng, w, reject=(focus == "reject"))
                 if p_fail and rng.random() < p_fail and h.ops[-1].split()[0] in ("add", "add_at", "trim_capacity"):
